@@ -121,6 +121,7 @@ PROPS = {
     },
     "C15": {
         "theories": ["numpy array algebra (closures); enumeration model: n members (1 <= n <= 256, symbolic), indices [0..n), names pairwise distinct, enums[i].index == i"],
+        "native_standins": "contracts.c15_enums:NATIVE_STANDINS",
         "lemmas": [],
         "validations": ["numpy"],
         "assumptions": [
